@@ -22,8 +22,7 @@ def setup():
     # build the theories of the claimed properties (others may be under construction)
     targets = []
     for pid in pids:
-        for f in ("Property.vo", "Corr.vo"):
-            targets.append(os.path.join("theories", pid, f))
+        targets += common.build_targets(pid)
     rc, out = common.coq_make(targets)
     print(out[-3000:])
     return rc
